@@ -25,6 +25,15 @@ def oracle(tier, rng, seeds):
     for c in geo_gens.cells(drv, tier, rng, 300 if tier == 'quick' else 60000):
         if c:
             K.check_shape(drv.a5, c, fails, st); n += 1
+    from py_driver import bits2f
+    from refids import ref_res as _rr
+    for op in seeds:
+        t = op.split()
+        if t[0] == 'l2c' and 0 <= int(t[3]) <= 29:
+            K.check_quantisation(drv.a5, (bits2f(t[1]), bits2f(t[2])), int(t[3]), fails, st); n += 1
+    # published corners / edge points given back as they are, and points just inside them
+    for q, c in geo_gens.inside_corner_points(drv, rng, 200 if tier == 'quick' else 6000):
+        K.check_quantisation(drv.a5, q, _rr(c), fails, st); n += 1
     for p in geo_gens.points(drv, tier, rng, 400 if tier == 'quick' else 50000):
         K.check_quantisation(drv.a5, p, rng.randint(0, 29), fails, st); n += 1
         if len(fails) > 20:
